@@ -13,6 +13,7 @@ var registry = map[string]checkFn{
 	"C07": checkC07,
 	"C08": checkC08,
 	"C09": checkC09,
+	"C10": checkC10,
 	"C22": checkC22,
 	"C25": checkC25,
 	"C28": checkC28,
